@@ -169,6 +169,29 @@ def rename_anchors(facts, known):
             narrowed = [n for n in cs if callers_now.get(n, set()) == want]
             if len(narrowed) == 1:
                 cands[m] = narrowed
+    # still ambiguous (six FEN field parsers with one signature and one caller): tell them apart by the reference-tree
+    # functions they call
+    try:
+        with open(os.path.join(HERE, "known_callees.json")) as fh:
+            known_callees = json.load(fh)
+    except OSError:
+        known_callees = {}
+    callees_now = {}
+    for j in facts["bodies"]:
+        if j["kind"] != "fn":
+            continue
+        cs = set()
+        for blk in j["blocks"]:
+            t = blk["term"]
+            if t["k"] in ("call", "tailcall") and t.get("callee") in known:
+                cs.add(t["callee"])
+        callees_now[j["key"]] = cs
+    for m, cs in list(cands.items()):
+        if len(cs) > 1 and m in known_callees:
+            want = {c for c in known_callees[m] if c in known and c not in missing}
+            narrowed = [n for n in cs if callees_now.get(n, set()) & set(known) - set(missing) == want] if want else []
+            if len(narrowed) == 1:
+                cands[m] = narrowed
     pairs = []
     taken = {}
     for m, cs in cands.items():
